@@ -179,7 +179,7 @@ func cmdOne(args []string) {
 	trace := fs.Bool("trace", false, "trace instructions")
 	ring := fs.Bool("ring", false, "ring mode")
 	tags := fs.String("tags", "", "build tags")
-	solver := fs.String("solver", "z3", "solver binary")
+	solver := fs.String("solver", defaultSolver(), "solver binary")
 	slog := fs.String("smtlog", "", "log smt to file")
 	maxp := fs.Int("maxpaths", 0, "")
 	fs.Parse(args)
@@ -209,14 +209,16 @@ func cmdOne(args []string) {
 		fmt.Printf("reached %s\n", k)
 	}
 	cnt := map[string]int{}
+	ms := map[string]float64{}
 	for _, o := range res.Obls {
 		cnt[o.ID+" "+o.Verdict]++
+		ms[o.ID+" "+o.Verdict] += o.Ms
 		if o.Verdict != "discharged" {
 			fmt.Printf("OBL %s %s path=%d %s\n   model: %s\n", o.ID, o.Verdict, o.PathNo, o.Query, modelString(o.Model))
 		}
 	}
 	for k, v := range cnt {
-		fmt.Printf("  %-50s x%d\n", k, v)
+		fmt.Printf("  %-50s x%d  %.0fms\n", k, v, ms[k])
 	}
 	if res.Err != "" {
 		fmt.Println("ERR", res.Err)
